@@ -27,7 +27,7 @@ impl Vm {
         let mut cycles = 0;
         loop {
             cycles += 1;
-            if cycles % 8192 == 0 {
+            if self.heap.collection_due() {
                 self.run_gc();
             }
             match self.run_one() {
@@ -485,7 +485,9 @@ impl Vm {
     ///
     /// Run GC performs two steps in order:
     ///
-    /// 1. Check if heap utilization is > 75%, aborting gc is not.
+    /// 1. Check if a collection is due (heap utilization is >= 75%, or the
+    ///    values allocated since the last one hold a lot of memory outside
+    ///    of the heap), aborting gc if not.
     ///
     /// 2. It performs a mark on all roots:
     ///    * The global environment
@@ -493,7 +495,7 @@ impl Vm {
     ///
     /// 3. A sweep, freeing any vcells not marked as used in step #1.
     pub fn run_gc(&mut self) {
-        if (self.heap.used_size() as f64 / self.heap.capacity() as f64) < 0.75_f64 {
+        if !self.heap.collection_due() {
             return;
         }
 
@@ -514,7 +516,7 @@ impl Vm {
         self.heap.sweep();
 
         // If after GC the heap utilization is still high, grow the heap.
-        if (self.heap.used_size() as f64 / self.heap.capacity() as f64) > 0.75_f64 {
+        if self.heap.used_size() * 4 >= self.heap.capacity() * 3 {
             self.heap.grow();
         }
     }
